@@ -616,3 +616,11 @@ func implies(have, want token.Token) bool {
 	}
 	return false
 }
+
+// EdgeFact is the exported form of edgeFact.
+func (c *Ctx) EdgeFact(pred, succ *ssa.BasicBlock) (Fact, bool) { return c.edgeFact(pred, succ) }
+
+// LowerBoundWith is LowerBound with additional facts assumed.
+func (c *Ctx) LowerBoundWith(v ssa.Value, at ssa.Instruction, extra []Fact) (int64, bool) {
+	return c.lowerBoundX(v, at, 0, extra)
+}
